@@ -31,6 +31,9 @@ type fakeS3 struct {
 	lists   int
 	failAt  int    // fail the failAt-th LIST request (0 = never)
 	failHow string // AccessDenied | NoSuchBucket
+	delFail int    // refuse the delFail-th DELETE request (0 = never)
+	delHow  string // AccessDenied | NoSuchBucket
+	refused []string
 	deletes []string
 	other   []string
 }
@@ -109,6 +112,14 @@ func (s *fakeS3) ServeHTTP(w http.ResponseWriter, r *http.Request) {
 		w.Write([]byte(xml.Header))
 		w.Write(b)
 	case r.Method == "DELETE" && len(parts) == 2:
+		if s.delFail > 0 && len(s.deletes)+len(s.refused)+1 == s.delFail {
+			s.refused = append(s.refused, parts[1])
+			code := map[string]int{"AccessDenied": 403, "NoSuchBucket": 404}[s.delHow]
+			w.Header().Set("Content-Type", "application/xml")
+			w.WriteHeader(code)
+			fmt.Fprintf(w, `<?xml version="1.0" encoding="UTF-8"?><Error><Code>%s</Code><Message>injected</Message><Key>%s</Key><BucketName>%s</BucketName><Resource>/%s/%s</Resource><RequestId>1</RequestId><HostId>h</HostId></Error>`, s.delHow, parts[1], s.bucket, s.bucket, parts[1])
+			return
+		}
 		s.deletes = append(s.deletes, parts[1])
 		delete(s.keys, parts[1])
 		w.WriteHeader(http.StatusNoContent)
@@ -123,6 +134,7 @@ func c16S3(a vh.Args, o *vh.Oracle, r *vh.Result, c *c16Case) error {
 	if c.N == 0 {
 		srv.failHow = ""
 	}
+	srv.delFail, srv.delHow = c.DelFail, c.DelHow
 	for _, k := range c.Keys {
 		srv.keys[k] = true
 	}
@@ -194,12 +206,33 @@ func c16S3(a vh.Args, o *vh.Oracle, r *vh.Result, c *c16Case) error {
 	}
 	srv.mu.Lock()
 	injected := srv.failAt > 0 && srv.lists >= srv.failAt
+	refused := append([]string{}, srv.refused...)
 	srv.mu.Unlock()
+	if len(refused) > 0 {
+		r.Dist("s3-delete-refused:" + c.DelHow + "/result=" + res)
+		if res == "nil" {
+			fail("s3prune/delete-error-swallowed", fmt.Sprintf("the service refused DELETE %s (%s) and S3Store.Prune returned nil; the unreferenced object is still there", refused[0], c.DelHow))
+		}
+		// RemoveChunk itself must hand the refusal back
+		if id, ok := canon(refused[0]); ok {
+			srv.mu.Lock()
+			srv.delFail = len(srv.deletes) + len(srv.refused) + 1
+			srv.mu.Unlock()
+			cid, _ := desync.ChunkIDFromString(id)
+			if rerr := st.RemoveChunk(cid); rerr == nil {
+				fail("s3/removechunk-swallows-error", fmt.Sprintf("the service refused DELETE %s (%s) and S3Store.RemoveChunk returned nil", refused[0], c.DelHow))
+			}
+		}
+		injected = true
+	}
 	if injected {
 		r.Dist("s3-list-failure:" + c.Backend + "/result=" + res)
 	}
 	if res != "nil" && !injected {
 		fail("s3prune/returns-error", fmt.Sprintf("S3Store.Prune returned %v", perr))
+	}
+	if len(refused) > 0 {
+		return nil
 	}
 	for _, k := range c.Keys {
 		if afterSet[k] {
@@ -308,6 +341,23 @@ func c16S3All(a vh.Args, o *vh.Oracle, r *vh.Result, rng *vh.Rand) error {
 		}
 		c.Keep, c.KeepTag = c16Keep(rng, ids)
 		c.Feat = lsFeats(feat)
+		if i%4 == 1 { // refuse every DELETE request in turn
+			fc := *c
+			fc.Keep, fc.KeepTag = nil, "empty"
+			nchunks := 0
+			for _, k := range fc.Keys {
+				if _, ok := canonicalID(strings.TrimPrefix(k, fc.Prefix), fc.Unc); ok && strings.HasPrefix(k, fc.Prefix) {
+					nchunks++
+				}
+			}
+			for n := 1; n <= nchunks; n++ {
+				dc := fc
+				dc.DelFail, dc.DelHow = n, []string{"AccessDenied", "NoSuchBucket"}[n%2]
+				if err := c16S3(a, o, r, &dc); err != nil {
+					return err
+				}
+			}
+		}
 		if i%4 == 3 { // fail every LIST request in turn (page size 3)
 			pages := len(c.Keys)/3 + 2
 			for n := 1; n <= pages; n++ {
